@@ -78,17 +78,25 @@ Qed.
 (* repaired tree, still false (known finding draw-raises-zero-division:DistPearson5):
    with shape < 1 a first uniform of exactly 0 gives p = 0, y = 0 ** (1/shape) = 0,
    the gamma draw is 0 and DistPearson5 divides by it *)
+Lemma gamma_lt1_first_uniform_zero : forall c shape scale b us,
+  0 < shape ->
+  gamma_lt1 NR (S c) shape scale b (0 :: / 2 :: us) = (Val (scale * 0), us).
+Proof.
+  intros c shape scale b us Hs. cbn [gamma_lt1]. unfold bind, next, lift, ret. unfold one. nr.
+  rewrite Rmult_0_r. rewrite (proj2 (Rleb_true 0 1)) by lra.
+  rewrite r_div_val by lra. rewrite r_pow_zero by (apply Rdiv_lt_0_compat; lra).
+  rewrite Ropp_0, exp_0. rewrite (proj2 (Rleb_true (/ 2) 1)) by lra. reflexivity.
+Qed.
+
 Lemma repaired_pearson5_divides_by_zero :
   fst (draw NR false (DPearson5 (/ 2) 1 (/ 2, 1)) None [0; / 2]) = Err (Raise EZeroDiv).
 Proof.
-  unfold draw, fv, draw_gamma, bind, lift, ret. cbn [fst snd]. unfold one. nr.
+  unfold draw, fv, draw_gamma. cbn [fst snd]. unfold one. nr.
   rewrite (proj2 (Rltb_true (/ 2) 1)) by lra.
   assert (He : exp 1 <> 0) by (pose proof (exp_pos 1); lra).
-  rewrite r_div_val by assumption. cbn [gamma_lt1 bind next lift]. unfold bind, next, lift, ret. unfold one. nr.
-  rewrite Rmult_0_r. rewrite (proj2 (Rleb_true 0 1)) by lra.
-  rewrite r_div_val by lra. rewrite r_pow_zero by lra.
-  rewrite Ropp_0, exp_0. rewrite (proj2 (Rleb_true (/ 2) 1)) by lra.
-  rewrite Rmult_0_r. rewrite r_div_0. reflexivity.
+  unfold bind at 1 2 3. unfold lift at 1. rewrite r_div_val by assumption.
+  change 1000%nat with (S 999). rewrite gamma_lt1_first_uniform_zero by lra.
+  unfold lift. rewrite Rmult_0_r. rewrite r_div_0. reflexivity.
 Qed.
 
 End RealWitnesses.
